@@ -7,7 +7,8 @@ LEAN_MODULE = ["Urandom.Props.C12", "Urandom.Props.C12T"]
 RULE = ("requests: Uniform<f32|f64> through try_new, try_new_inclusive, new, Random::range for finite bounds of all magnitudes (subnormal, huge, nearly equal, far from zero relative "
         "to their distance, reversed, equal, overflowing difference) and non-finite inputs, x unit floats from words {0, !0, boundary mantissas, random}; debug and release builds "
         "(the NonFinite check exists only under debug_assertions). oracle: the property's bounds predicate on every sample, classified by the known-finding predicates D2 / D2b. "
-        "non-trivial = finite bounds; distinct = distinct request line")
+        "non-trivial = finite bounds; distinct = distinct request line"
+        " Since rounds 9/10 (extra): ranges on which the formula is exact sampled under every seeded generator after a fill that puts a block generator at each buffer offset (urange), and under injected Xoshiro256 states whose s0 + s3 is at / next to the all-ones and all-zero fields.")
 ASSUMPTIONS = ["the software IEEE-754 model is validated against the hardware on every run (fp stream), not proved"]
 
 
